@@ -206,6 +206,11 @@ theorem stepTask_valInv {m s t task rest s'} (hth : s.threads[t]? = some (task :
     · exact hrest o' cb' v' hm
   · simp at h; subst h
     exact build _ _ _ rfl rfl rfl (fun o cb' v' hm => hrest o cb' v' hm) hlog inv.wait
+  · simp at h; subst h
+    refine build _ _ _ rfl rfl rfl ?_ hlog inv.wait
+    intro o cb' v' hm
+    simp at hm
+    exact hrest o cb' v' hm
 
 theorem step_valInv {m s t s'} (h : step m s t = some s') (inv : ValInv s) : ValInv s' := by
   obtain ⟨task, rest, h1, h2⟩ := step_inv h
@@ -326,6 +331,11 @@ theorem stepTask_total {m s t task rest s'} (hth : s.threads[t]? = some (task ::
     have := key rest
     simp only [total, logCnt, waitCnt, pend, cntStack_eq, cntTask] at this ⊢
     omega
+  · rename_i g cb
+    simp at h; subst h
+    have := key (Task.call (Call.thenAccept g cb) :: rest)
+    simp only [total, logCnt, waitCnt, pend, cntStack_eq, stackSum_cons, cntTask] at this ⊢
+    omega
 
 theorem step_total {m s t s'} (h : step m s t = some s') (τ f) : total τ f s' = total τ f s := by
   obtain ⟨task, rest, h1, h2⟩ := step_inv h
@@ -424,6 +434,11 @@ theorem stepTask_weight {m s t task rest s'} (hth : s.threads[t]? = some (task :
   · simp at h; subst h
     have := key rest
     simp only [weight, wst, wTask] at *
+    omega
+  · rename_i g cb
+    simp at h; subst h
+    have := key (Task.call (Call.thenAccept g cb) :: rest)
+    simp only [weight, wst, stackSum_cons, wTask] at *
     omega
 
 theorem step_weight {m s t s'} (h : step m s t = some s') : weight s' + 1 ≤ weight s := by
@@ -552,6 +567,7 @@ theorem protTask_mono (P : List FId) (out : FId) (task : Task) (d d' : FId → B
       · exact Or.inr (all_mono h hp)
   | run o cb v => exact protCb_mono P out cb _ _ (hor o) hp
   | unlock g => rfl
+  | appendCb g cb => exact protCb_mono P out cb _ _ (hor g) hp
 
 structure Prot (P : List FId) (out : FId) (s : Sys) : Prop where
   tasks : ∀ th ∈ s.threads, ∀ task ∈ th, protTask P out (isDone s) task = true
@@ -707,6 +723,14 @@ theorem stepTask_prot {P out m s t task rest s'} (hth : s.threads[t]? = some (ta
     · exact hrest x hx
   · simp at h; subst h
     exact build _ rfl hrest hwait (houtSame rfl)
+  · rename_i g cb
+    simp at h; subst h
+    refine build _ rfl ?_ hwait (houtSame rfl)
+    intro x hx
+    simp at hx
+    rcases hx with rfl | hx
+    · exact protCb_mono P out cb _ _ (orMono g) hhead
+    · exact hrest x hx
 
 theorem prot_mkSys (P : List FId) (out : FId) (threads : List (List Call))
     (h : ∀ cs ∈ threads, ∀ c ∈ cs, protCall P out c = true) : Prot P out (mkSys threads) := by
@@ -736,6 +760,7 @@ def srcTask (out g : FId) (s : Sys) : Task → Prop
   | .call (.complete x v) => x = out → s.value g = some v
   | .run o cb _ => srcCb out g o cb = true
   | .unlock _ => True
+  | .appendCb h cb => srcCb out g h cb = true
 
 structure Src (out g : FId) (s : Sys) : Prop where
   tasks : ∀ th ∈ s.threads, ∀ task ∈ th, srcTask out g s task
@@ -751,6 +776,7 @@ theorem srcTask_mono {out g : FId} {s s' : Sys} (hm : ∀ f v, s.value f = some 
     | complete x v => exact fun e => hm _ _ (h e)
   | run o cb v => exact h
   | unlock f => trivial
+  | appendCb h' cb => exact h
 
 theorem stepTask_src {out g m s t task rest s'} (hth : s.threads[t]? = some (task :: rest))
     (h : stepTask m s t task rest = some s') (vi : ValInv s) (inv : Src out g s) : Src out g s' := by
@@ -863,6 +889,13 @@ theorem stepTask_src {out g m s t task rest s'} (hth : s.threads[t]? = some (tas
     · exact hrest y hy
   · simp at h; subst h
     exact build _ rfl hrest inv.wait (houtSame rfl)
+  · simp at h; subst h
+    refine build _ rfl ?_ inv.wait (houtSame rfl)
+    intro y hy
+    simp at hy
+    rcases hy with rfl | hy
+    · exact hhead
+    · exact hrest y hy
 
 theorem src_mkSys (out g : FId) (threads : List (List Call))
     (h : ∀ cs ∈ threads, ∀ c ∈ cs, srcCall out g c = true) : Src out g (mkSys threads) := by
